@@ -416,12 +416,12 @@ func (e *emitter) emitFunc(name string) string {
 	return out
 }
 
-// templateVar resolves a package-level string variable's initial value.
+// templateVar resolves a package-level string variable's initial value (or a string constant's value).
 func (g *Gen) templateVar(name string) (string, bool) {
 	for _, f := range g.pkg.Syntax {
 		for _, d := range f.Decls {
 			gd, ok := d.(*ast.GenDecl)
-			if !ok || gd.Tok != token.VAR {
+			if !ok || (gd.Tok != token.VAR && gd.Tok != token.CONST) {
 				continue
 			}
 			for _, sp := range gd.Specs {
@@ -459,7 +459,10 @@ func (g *Gen) codeFuncs(k Kind, fnID string, withArg bool) string {
 				if seen[x.Name] {
 					return true
 				}
-				if obj, ok := g.pkg.TypesInfo.Uses[x].(*types.Var); ok && obj.Parent() == g.pkg.Types.Scope() {
+				obj := g.pkg.TypesInfo.Uses[x]
+				_, isVar := obj.(*types.Var)
+				_, isConst := obj.(*types.Const)
+				if (isVar || isConst) && obj.Parent() == g.pkg.Types.Scope() {
 					if v, ok := g.templateVar(x.Name); ok {
 						seen[x.Name] = true
 						fits := func(n int) bool {
